@@ -30,6 +30,9 @@ var errLookedAtExceptions = map[string]string{
 	"E2 msgpipeline.getRcptModifiers:RewriteSender1": "the call is a probe: per-recipient modifiers may not change the sender, and the result is only used to warn when they would; the sender in use is never taken from it, so its failure changes nothing",
 	"E2 modify.rewrite:Split1":              "the address was produced by address.ForLookup two steps earlier, which splits it successfully; the branch cannot be taken and the site says so (\"ignore it silently\"): the value is returned unchanged",
 	"E2 table.Lookup:Split1":                "table.email_localpart maps an address to its local part: a key that is not an address has no mapping (or maps to itself with allow_non_email) – the split error IS the not-found answer",
+	"E2 smtp.parseMessageDateTime:Parse1":   "the layouts are alternatives: a layout that does not fit is superseded by the next one, and when none fits the function refuses with an error of its own",
+	"E2 dns.exchange:ExchangeContext1":      "the configured servers are alternatives: a server that cannot be reached is superseded by the next one, and the last error is what the function returns when none answered",
+	"E2 table.SetKey:Exec1":                 "upsert idiom: when the insert is refused (key exists) the update is tried and ITS error is the one reported",
 	"E1 pass_table.AuthPlain:Lookup1":       "the `ok` result is tested before the error: a failed table lookup is answered as 'unknown credentials'; authentication is refused on both paths, so C14 is not affected (the reply class for a broken table is outside the listed properties)",
 }
 
@@ -420,6 +423,24 @@ func errDisciplineSeen(c *Check) {
 	}
 	sort.Slice(keptFis, func(i, j int) bool { return keptFis[i].Name() < keptFis[j].Name() })
 	defer keptEffectsSeen(c, keptFis)
+	// E1–E4 look at the functions of the property's packages as well (a swallowed read error in the body buffer
+	// selector is as fatal for "a failed transaction commits nothing" as one in the session)
+	{
+		have := map[*types.Func]bool{}
+		for _, fi := range fis {
+			have[fi.Obj] = true
+		}
+		inPkgs := map[string]bool{}
+		for _, rel := range propertyPackages[c.ID] {
+			inPkgs[modPath+"/"+rel] = true
+		}
+		for _, fi := range keptFis {
+			if !have[fi.Obj] && inPkgs[fi.Pkg.PkgPath] {
+				have[fi.Obj] = true
+				fis = append(fis, fi)
+			}
+		}
+	}
 	// functions that call helpers the reference tree did not have: E1–E4 look at the bodies as written, and at the
 	// helpers themselves
 	if len(p.origBody) > 0 {
